@@ -79,7 +79,8 @@ CInit2   == /\ Procs = 1..2 /\ Keys = 1..2 /\ Ents = 1..4 /\ shard = [k \in 1..2
             /\ Policy = "GoRW" /\ FreeIgnoresWriters = FALSE
 CInitAny == /\ Procs = 1..3 /\ Keys = 1..2 /\ Ents = 1..6 /\ shard = [k \in 1..2 |-> k % 2]
             /\ Policy = "Any" /\ FreeIgnoresWriters = FALSE
-CInitDev == /\ Procs = 1..3 /\ Keys = 1..2 /\ Ents = 1..6 /\ shard = [k \in 1..2 |-> k % 2]
+(* the witness needs no third process: 2 procs keep it to a few minutes *)
+CInitDev == /\ Procs = 1..2 /\ Keys = 1..2 /\ Ents = 1..4 /\ shard = [k \in 1..2 |-> k % 2]
             /\ Policy = "GoRW" /\ FreeIgnoresWriters = TRUE
 
 \* @type: Set(Int) => Int;
